@@ -14,6 +14,9 @@
 (* Reclamation of queue nodes is not modelled (nodes are never reused; the *)
 (* containers over reclaimers are the subject of MSQueue / C01).           *)
 (*                                                                         *)
+(* The value recorded for an access (variable `last`) is what the runtime  *)
+(* records for the real access: the value read, the value stored, and for  *)
+(* read-modify-writes the value found (NikolaevQueue_Step binds on it).    *)
 (* KeepFin = FALSE is the code before the fix of catchup(): the CAS on     *)
 (* _tail dropped the finalized flag.                                       *)
 (***************************************************************************)
@@ -110,7 +113,7 @@ e_chk(t) == /\ pc[t] = "e_chk"
 e_cas(t) == /\ pc[t] = "e_cas"
             /\ LET j == Slot(loc[t].x) cur == R(t).ent[j] new == (loc[t].x \div M2) * M2 + loc[t].ev IN
                IF cur = loc[t].E
-                 THEN /\ SetEnt(t, j, new) /\ Acc(t, "cas", "e_cas", new, 1) /\ Goto(t, "e_thr") /\ UNCHANGED loc
+                 THEN /\ SetEnt(t, j, new) /\ Acc(t, "cas", "e_cas", cur, 1) /\ Goto(t, "e_thr") /\ UNCHANGED loc
                  ELSE /\ loc' = [loc EXCEPT ![t].E = cur] /\ Acc(t, "cas", "e_cas", cur, 0) /\ Goto(t, "e_chk") /\ UNCHANGED ring
             /\ UQ
 e_thr(t) == /\ pc[t] = "e_thr"
@@ -154,7 +157,7 @@ d_chk(t) == /\ pc[t] = "d_chk"
             /\ UNCHANGED ring /\ UQ
 d_for(t) == /\ pc[t] = "d_for"
             /\ LET j == Slot(loc[t].x) IN
-               /\ SetEnt(t, j, OrVal(R(t).ent[j])) /\ Acc(t, "for", "d_for", OrVal(R(t).ent[j]), 1)
+               /\ SetEnt(t, j, OrVal(R(t).ent[j])) /\ Acc(t, "for", "d_for", R(t).ent[j], 1)
             /\ loc' = [loc EXCEPT ![t].ok = TRUE, ![t].val = ValOf(loc[t].E)]
             /\ bad' = IF bad = "ok" /\ ValOf(loc[t].E) >= Cap THEN "dequeued index out of range" ELSE bad
             /\ Goto(t, loc[t].cont)
@@ -162,7 +165,7 @@ d_for(t) == /\ pc[t] = "d_for"
 d_cas(t) == /\ pc[t] = "d_cas"
             /\ LET j == Slot(loc[t].x) cur == R(t).ent[j] IN
                IF cur = loc[t].E
-                 THEN /\ SetEnt(t, j, loc[t].Enew) /\ Acc(t, "cas", "d_cas", loc[t].Enew, 1) /\ Goto(t, "d_after") /\ UNCHANGED loc
+                 THEN /\ SetEnt(t, j, loc[t].Enew) /\ Acc(t, "cas", "d_cas", cur, 1) /\ Goto(t, "d_after") /\ UNCHANGED loc
                  ELSE /\ loc' = [loc EXCEPT ![t].E = cur] /\ Acc(t, "cas", "d_cas", cur, 0) /\ Goto(t, "d_chk") /\ UNCHANGED ring
             /\ UQ
 d_after(t) == /\ pc[t] = "d_after"
@@ -175,7 +178,7 @@ d_after(t) == /\ pc[t] = "d_after"
 c_cas(t) == /\ pc[t] = "c_cas"
             /\ LET new == IF KeepFin THEN loc[t].h + Fin(loc[t].t) ELSE loc[t].h IN
                IF R(t).tail = loc[t].t
-                 THEN /\ SetR(t, "tail", new) /\ Acc(t, "cas", "c_cas", new, 1) /\ Goto(t, "d_fsube") /\ UNCHANGED loc
+                 THEN /\ SetR(t, "tail", new) /\ Acc(t, "cas", "c_cas", loc[t].t, 1) /\ Goto(t, "d_fsube") /\ UNCHANGED loc
                  ELSE /\ loc' = [loc EXCEPT ![t].t = R(t).tail] /\ Acc(t, "cas", "c_cas", R(t).tail, 0) /\ Goto(t, "c_ldh") /\ UNCHANGED ring
             /\ UQ
 c_ldh(t) == /\ pc[t] = "c_ldh"
@@ -208,10 +211,13 @@ p_tail(t) == /\ pc[t] = "p_tail"
              /\ Goto(t, "p_next") /\ UNCHANGED ring /\ UQ
 p_next(t) == /\ pc[t] = "p_next"
              /\ Acc(t, "ld", "p_next", nxt[loc[t].m], 1)
-             /\ IF nxt[loc[t].m] # 0 THEN Goto(t, "p_help") /\ UNCHANGED loc
+             /\ IF nxt[loc[t].m] # 0 THEN Goto(t, "p_ldn") /\ UNCHANGED loc
                 ELSE \* try_push: _free_queue.dequeue
                      /\ loc' = [loc EXCEPT ![t] = CallDeq(@, loc[t].m, "fq", "tp_deq")] /\ Goto(t, "d_thr")
              /\ UNCHANGED ring /\ UQ
+p_ldn(t) == /\ pc[t] = "p_ldn"              \* (2) the acquire-load of _next (never null here: _next is set once)
+            /\ Acc(t, "ld", "p_ldn", nxt[loc[t].m], 1) /\ Goto(t, "p_help")
+            /\ UNCHANGED <<loc, ring>> /\ UQ
 p_help(t) == /\ pc[t] = "p_help"
              /\ qtail' = IF qtail = loc[t].m THEN nxt[loc[t].m] ELSE qtail
              /\ Acc(t, "cas", "p_help", 0, IF qtail = loc[t].m THEN 1 ELSE 0)
@@ -221,7 +227,7 @@ tp_deq(t) == /\ pc[t] = "tp_deq"
              /\ IF ~loc[t].ok
                   THEN \* no free entry: _allocated_queue.finalize()
                        /\ ring' = [ring EXCEPT ![loc[t].m].aq.tail = IF Fin(@) = 1 THEN @ ELSE @ + 1]
-                       /\ Acc(t, "for", "tp_fin", 0, 1) /\ Goto(t, "p_new") /\ UNCHANGED <<loc, stor>>
+                       /\ Acc(t, "for", "tp_fin", ring[loc[t].m].aq.tail, 1) /\ Goto(t, "p_new") /\ UNCHANGED <<loc, stor>>
                   ELSE \* construct the element in its slot (plain), then _allocated_queue.enqueue<false, true>
                        /\ stor' = [stor EXCEPT ![loc[t].m][loc[t].val] = loc[t].v]
                        /\ loc' = [loc EXCEPT ![t] = CallEnq([@ EXCEPT !.idx = loc[t].val], loc[t].m, "aq", loc[t].val, TRUE, "tp_enq")]
@@ -244,10 +250,24 @@ p_new(t) == /\ pc[t] = "p_new" /\ used < MaxNodes
             /\ UNCHANGED <<lin, budget, nextv, nxt, qhead, qtail, bad, last>>
 p_link(t) == /\ pc[t] = "p_link"
              /\ IF nxt[loc[t].m] = 0
-                  THEN /\ nxt' = [nxt EXCEPT ![loc[t].m] = loc[t].h] /\ Acc(t, "cas", "p_link", loc[t].h, 1) /\ Goto(t, "p_swing")
-                  ELSE \* lost the race: steal_init_value (the node is private: no steps), delete it, start over
-                       /\ Acc(t, "cas", "p_link", nxt[loc[t].m], 0) /\ Goto(t, "p_tail") /\ UNCHANGED nxt
-             /\ UNCHANGED <<loc, lin, budget, nextv, ring, stor, qhead, qtail, used, bad>>
+                  THEN /\ nxt' = [nxt EXCEPT ![loc[t].m] = loc[t].h] /\ Acc(t, "cas", "p_link", 0, 1) /\ Goto(t, "p_swing")
+                       /\ UNCHANGED loc
+                  ELSE \* lost the race: steal_init_value takes the value back out of the private node (a dequeue on its allocated
+                       \* ring, an enqueue on its free ring), `delete next` drains the allocated ring once more (~node), then start over
+                       /\ Acc(t, "cas", "p_link", nxt[loc[t].m], 0) /\ UNCHANGED nxt
+                       /\ loc' = [loc EXCEPT ![t] = CallDeq(@, loc[t].h, "aq", "st_deq")] /\ Goto(t, "d_thr")
+             /\ UNCHANGED <<lin, budget, nextv, ring, stor, qhead, qtail, used, bad>>
+st_deq(t) == /\ pc[t] = "st_deq"
+             /\ loc' = [loc EXCEPT ![t] = CallEnq(@, loc[t].h, "fq", loc[t].val, FALSE, "st_dtor")]
+             /\ bad' = IF bad = "ok" /\ ~loc[t].ok THEN "steal_init_value found no value" ELSE bad
+             /\ Goto(t, "e_faa")
+             /\ UNCHANGED <<lin, budget, nextv, ring, stor, nxt, qhead, qtail, used, last>>
+st_dtor(t) == /\ pc[t] = "st_dtor"          \* ~node: while (_allocated_queue.dequeue(idx)) destroy the element
+              /\ loc' = [loc EXCEPT ![t] = CallDeq(@, loc[t].h, "aq", "st_dtor2")] /\ Goto(t, "d_thr")
+              /\ UNCHANGED <<ring, last>> /\ UQ
+st_dtor2(t) == /\ pc[t] = "st_dtor2"
+               /\ Goto(t, IF loc[t].ok THEN "st_dtor" ELSE "p_tail")
+               /\ UNCHANGED <<loc, ring, last>> /\ UQ
 p_swing(t) == /\ pc[t] = "p_swing"
               /\ qtail' = IF qtail = loc[t].m THEN loc[t].h ELSE qtail
               /\ Acc(t, "cas", "p_swing", 0, IF qtail = loc[t].m THEN 1 ELSE 0)
@@ -268,16 +288,19 @@ q_deq1(t) == /\ pc[t] = "q_deq1"
              /\ IF loc[t].ok THEN Goto(t, "q_take") /\ UNCHANGED <<last, lin>>
                 ELSE /\ Acc(t, "ld", "q_next", nxt[loc[t].m], 1)
                      /\ IF nxt[loc[t].m] = 0 THEN Return(t, 0, 0, TRUE)
-                        ELSE Goto(t, IF SecondLook THEN "q_thr" ELSE "q_cas") /\ UNCHANGED lin
+                        ELSE Goto(t, IF SecondLook THEN "q_thr" ELSE "q_ldn") /\ UNCHANGED lin
              /\ UNCHANGED <<loc, budget, nextv, ring, stor, nxt, qhead, qtail, used, bad>>
 q_thr(t) == /\ pc[t] = "q_thr"
             /\ ring' = [ring EXCEPT ![loc[t].m].aq.thr = ThrFull] /\ Acc(t, "st", "q_thr", ThrFull, 1)
             /\ loc' = [loc EXCEPT ![t] = CallDeq(@, loc[t].m, "aq", "q_deq2")]
             /\ Goto(t, "d_thr") /\ UQ
 q_deq2(t) == /\ pc[t] = "q_deq2"
-             /\ Goto(t, IF loc[t].ok THEN "q_take" ELSE "q_cas")
+             /\ Goto(t, IF loc[t].ok THEN "q_take" ELSE "q_ldn")
              /\ UNCHANGED <<loc, ring, last>> /\ UQ
-q_cas(t) == /\ pc[t] = "q_cas"             \* (7) load of _next and (8) CAS on _head as one step: _next never changes once set
+q_ldn(t) == /\ pc[t] = "q_ldn"             \* (7) the acquire-load of _next
+            /\ Acc(t, "ld", "q_ldn", nxt[loc[t].m], 1) /\ Goto(t, "q_cas")
+            /\ UNCHANGED <<loc, ring>> /\ UQ
+q_cas(t) == /\ pc[t] = "q_cas"             \* (8) CAS on _head
             /\ qhead' = IF qhead = loc[t].m THEN nxt[loc[t].m] ELSE qhead
             /\ Acc(t, "cas", "q_cas", 0, IF qhead = loc[t].m THEN 1 ELSE 0)
             /\ Goto(t, "q_head")
@@ -292,8 +315,8 @@ q_done(t) == /\ pc[t] = "q_done"
 ThreadStep(t) == \/ StartPush(t) \/ StartPop(t)
                  \/ e_faa(t) \/ e_ld(t) \/ e_chk(t) \/ e_cas(t) \/ e_thr(t) \/ e_sthr(t)
                  \/ d_thr(t) \/ d_faa(t) \/ d_ld(t) \/ d_chk(t) \/ d_for(t) \/ d_cas(t) \/ d_after(t) \/ c_cas(t) \/ c_ldh(t) \/ d_fsube(t) \/ d_fsub(t)
-                 \/ p_tail(t) \/ p_next(t) \/ p_help(t) \/ tp_deq(t) \/ tp_enq(t) \/ p_new(t) \/ p_link(t) \/ p_swing(t)
-                 \/ q_head(t) \/ q_deq1(t) \/ q_thr(t) \/ q_deq2(t) \/ q_cas(t) \/ q_take(t) \/ q_done(t)
+                 \/ p_tail(t) \/ p_next(t) \/ p_ldn(t) \/ p_help(t) \/ tp_deq(t) \/ tp_enq(t) \/ p_new(t) \/ p_link(t) \/ st_deq(t) \/ st_dtor(t) \/ st_dtor2(t) \/ p_swing(t)
+                 \/ q_head(t) \/ q_deq1(t) \/ q_thr(t) \/ q_deq2(t) \/ q_ldn(t) \/ q_cas(t) \/ q_take(t) \/ q_done(t)
 Next == \E t \in Threads : ThreadStep(t)
 Spec == Init /\ [][Next]_vars
 
